@@ -21,7 +21,7 @@ RULE = ('Node sets also as lists / tuples / ranges of Python ints with a spacing
 ASSUMPTIONS = ['rounding scaled by conditioning = C*(eps*m*max_j|w_kj| + D_k) per row k, D_k = measured change of the exact weights when nodes move by eps*spread; C=2048 = 30x the worst ratio (47.6) seen in 60000 node sets '
                '(Fornberg recursion: O(m) operations per weight)',
                'exact weights derived from the definition of the Lagrange basis in Fraction arithmetic']
-C_ROW = 2048.0
+C_ROW = 256.0
 C_POLY = 64.0
 KINDS = ['uniform', 'random', 'clustered', 'permuted', 'onesided', 'geometric', 'integer', 'offset', 'pyint_big']
 
@@ -79,12 +79,16 @@ def cases(rng, tier, shard, nshards):
         if x is None:
             continue
         lo, hi = x.min(), x.max()
-        place = ['inside', 'outside', 'node'][int(rng.integers(0, 3))]
+        place = ['inside', 'outside', 'node', 'far'][int(rng.integers(0, 4))]
         if place == 'inside':
             x0 = float(rng.uniform(lo, hi))
         elif place == 'outside':
             x0 = float(hi + rng.uniform(0.05, 1.0) * (hi - lo)) if rng.random() < 0.5 else \
                 float(lo - rng.uniform(0.05, 1.0) * (hi - lo))
+        elif place == 'far':
+            # the expansion point much farther from the nodes than they are from each other (the weights are still well
+            # conditioned: they depend on the node differences, which the recursion forms exactly)
+            x0 = float((hi if rng.random() < 0.5 else lo) + rng.choice([-1, 1]) * (hi - lo) * 10.0 ** rng.uniform(1, 4))
         else:
             x0 = float(x[int(rng.integers(0, m))])
         nder = int(rng.integers(0, m))
@@ -143,10 +147,17 @@ def run_case(case, ctx):
     # relative rounding eps/2, i.e. it effectively works on nodes displaced by <= eps*spread.
     # The induced change of the exact weights is measured, not estimated.
     prng = np.random.default_rng(case['pseed'] + 1)
-    spread = float(max(np.ptp(x), abs(x0 - x.min()), abs(x0 - x.max())))
+    # (the recursion only ever forms x[i] - x[v] and x[i] - x0, each with a relative rounding of eps/2: what it effectively
+    # works on are nodes displaced by a fraction eps of their distance to the nearest other node or to x0 - not by eps times
+    # the whole spread, which would also excuse an implementation that shifts or rescales the nodes before differencing)
+    xs_sorted = np.sort(x)
+    gaps = {}
+    for v in x:
+        others = np.abs(np.concatenate([xs_sorted[xs_sorted != v] - v, [x0 - v] if x0 != v else []]))
+        gaps[float(v)] = float(np.min(others)) if others.size else 1.0
     dev = [[Fraction(0)] * m for _ in range(n + 1)]
-    for _ in range(2):
-        xp = [float(v) + float(sg) * EPS * spread for v, sg in zip(case['x'], prng.choice([-1.0, 1.0], m))]
+    for _ in range(3):
+        xp = [float(v) + float(sg) * 2 * EPS * gaps[float(v)] for v, sg in zip(case['x'], prng.choice([-1.0, 1.0], m))]
         pert = lagrange_derivative_weights(xp, x0, n)
         for k in range(n + 1):
             for j in range(m):
